@@ -110,6 +110,14 @@ def obsM (h : Option Model.Seq.Halt) (c : Model.Context) : Option Model.Seq.Halt
 /-- every instruction is of the class of `StraightLineLdRet`, but the `ret` is not the last one -/
 theorem ret_class : retApp.instrs.all ldrInstr = true ∧ StraightLineLdRet retApp = false := by decide
 
+theorem ret_classR : StraightLineLdR retApp = true := by decide
+
+theorem ret_wf : Proofs.Refine.WfApp retApp := { small := by decide, regs := by decide +kernel, nofwd := by decide +kernel }
+
+theorem ret_spec : (Spec.run (Proofs.Refine.specProg retApp)
+    { regs := Array.replicate 32 0#32, mem := ((List.range 256).map (fun i => BitVec.ofNat 8 (i + 1))).toArray } 50).stop = .ret := by
+  decide +kernel
+
 theorem ret_seq : obsM (Model.Seq.runMvp1 retApp ⟨ctxM, 0⟩ 20).halt (Model.Seq.runMvp1 retApp ⟨ctxM, 0⟩ 20).final.ctx =
     (some .ret, [0x04030201#32, 0x44434241#32, 0#32]) := by decide +kernel
 
